@@ -217,6 +217,26 @@ pub fn one_c15(prop: &str, c: &Case, rep: &mut Report) {
             Ok(l) => rep.merge(l),
             Err(p) => rep.violations.push(panic_violation(prop, c, &p)),
         }
+        // a clone of a cell with faces is itself a cell with faces: the unchecked accessors must find the same data
+        if i % 4 == 2 {
+            match guarded(|| {
+                let cl = cell.clone();
+                let mut local = Report::new(prop, "x", 0);
+                let same = cl.face_count() == cell.face_count()
+                    && (0..cell.face_count()).all(|f| cl.face_vertices(f) == cell.face_vertices(f) && cl.neighbour(f) == cell.neighbour(f) && cl.shift(f) == cell.shift(f) && cl.face_vertex_count(f) == cell.face_vertex_count(f));
+                if !same {
+                    local.violations.push(Violation::new(prop, "c15.clone_differs", format!("cell {i}: the clone of a cell with faces reports other faces than the original"), Some(c), json!({"cell": i})));
+                }
+                walk_cell(prop, c, i, plain, &cl, &mut local);
+                local
+            }) {
+                Ok(l) => {
+                    rep.merge(l);
+                    rep.count("clones_walked", 1);
+                }
+                Err(p) => rep.violations.push(panic_violation(prop, c, &p)),
+            }
+        }
         // round trip: with_faces -> discard_faces -> with_faces is the identity
         if i % 4 == 0 {
             let r = guarded(|| {
